@@ -353,6 +353,9 @@ impl VirtualEnv {
                 Fold => {
                     let [f] = get_args(args)?;
                     if f == (0, 0) {
+                    } else if f.args() == 0 {
+                        // Nothing is folded over: the outputs are collected as they are
+                        self.handle_args_outputs(0, f.outputs());
                     } else if f.outputs() >= f.args() {
                         self.handle_args_outputs(f.args(), f.outputs() + 1 - f.args());
                     } else {
